@@ -424,11 +424,27 @@ fn file_cases(tier: Tier) -> Vec<(String, Vec<u8>)> {
         "f : (int -> int) = (x : int) => x * 2\ng : int = f 20 + 2\ng",
         "b : bool = 10 - 3 - 2 >= 6\nif b then 1 else 0",
         "x = y + 1; y = 2; x",
+        // evaluation that stops on a division by zero: `gram check` accepts, `gram run` fails
+        "1 / 0",
+        "x = 5 / (3 - 3); x + 1",
+        "f = (n : int) => 10 / n\nf 0",
+        // diagnostics on several lines of a multi-line file, with non-ASCII text before them
+        "é = 1\nb = é + u\nc = v\n\n# comment\nb + w",
+        "x = 1 +\n  true\ny = if 1\n  then 2\n  else 3\nx $ y",
     ]
     .iter()
     .enumerate()
     {
         v.push((format!("program-{i}"), p.as_bytes().to_vec()));
+    }
+    // rejected programs with several diagnostics at once (lexical, scoping, type, definition order): what
+    // the binary prints is compared with the diagnostics of the in-process pipeline
+    let fam = crate::props::c13::DiagFamily::new();
+    let step = tier.pick(151, 13);
+    let mut i = 0;
+    while i < fam.count() {
+        v.push((format!("diag-family-{i}"), fam.program(i).into_bytes()));
+        i += step;
     }
     // invalid UTF-8 mutations of the examples, and the examples themselves
     if let Ok(rd) = std::fs::read_dir(format!("{}/examples", crate::infra::repo_dir())) {
@@ -454,36 +470,68 @@ fn file_cases(tier: Tier) -> Vec<(String, Vec<u8>)> {
 }
 
 // For an accepted file: the standard output of `gram check` and `gram run` is what the in-process
-// pipeline computes, in the format of main.rs.
-fn printed_result(text: &str, path: &str, check_stdout: &[u8], shown: &str) {
+// pipeline computes, in the format of main.rs. `run` is the launch of `gram run` on the same file.
+fn printed_result(text: &str, check_stdout: &[u8], run: Option<&Launch>, shown: &str) {
     use crate::format::CodeStr;
     let expected = bind::with_front(text, &[], 3, |f| match f {
         Front::Ok { elab, ty, .. } => {
             let check = format!("Elaborated term:\n\n{}\n\nElaborated type:\n\n{}\n", elab.to_string().code_str(), ty.to_string().code_str());
             let (end, how, _) = bind::run_steps(elab, 200_000, |_, _| {});
             let run = match how {
-                bind::RunEnd::Value => Some(format!("{}\n", end.to_string().code_str())),
+                bind::RunEnd::Value => Some(Some(format!("{}\n", end.to_string().code_str()))),
+                bind::RunEnd::Stuck => Some(None),
                 _ => None,
             };
             Some((check, run))
         }
         _ => None,
     });
-    let Some((check, run)) = expected else { return };
+    let Some((check, expected_run)) = expected else { return };
     if check.as_bytes() != check_stdout {
         violation("cli-prints-another-result", shown, &format!("stdout of gram check = {check:?}"), &format!("{:?}", String::from_utf8_lossy(check_stdout)));
         return;
     }
     count!("cli_check_output_as_computed");
-    if let Some(run) = run {
-        let l = launch(&["run", path], Duration::from_secs(20));
-        count!("launches");
-        if l.timed_out || l.code != Some(0) || l.stdout != run.as_bytes() || !l.stderr.is_empty() {
-            violation("cli-prints-another-result", shown, &format!("gram run: exit 0, stdout {run:?}"), &format!("exit {:?}, stdout {:?}, stderr {:?}", l.code, String::from_utf8_lossy(&l.stdout), crate::infra::clip(&String::from_utf8_lossy(&l.stderr), 300)));
-        } else {
-            count!("cli_run_output_as_computed");
+    let (Some(expected_run), Some(l)) = (expected_run, run) else { return };
+    match expected_run {
+        Some(value) => {
+            if l.timed_out || l.code != Some(0) || l.stdout != value.as_bytes() || !l.stderr.is_empty() {
+                violation("cli-prints-another-result", shown, &format!("gram run: exit 0, stdout {value:?}"), &format!("exit {:?}, stdout {:?}, stderr {:?}", l.code, String::from_utf8_lossy(&l.stdout), crate::infra::clip(&String::from_utf8_lossy(&l.stderr), 300)));
+            } else {
+                count!("cli_run_output_as_computed");
+            }
+        }
+        None => {
+            // the evaluator stops on a term that is not a value (division by zero, by C01): that is a failure
+            if l.timed_out || l.code != Some(1) || !l.stdout.is_empty() || l.stderr.is_empty() {
+                violation("cli-prints-another-result", shown, "gram run: exit 1, nothing on stdout, a message on stderr (evaluation stops on a non-value)", &format!("exit {:?}, stdout {:?}, stderr {:?}", l.code, String::from_utf8_lossy(&l.stdout), crate::infra::clip(&String::from_utf8_lossy(&l.stderr), 300)));
+            } else {
+                count!("cli_run_failure_as_computed");
+            }
         }
     }
+}
+
+// The diagnostics of the in-process pipeline for a rejected text, rendered the way `error::throw` renders
+// them when it is given the path of the file (`[Error] [`path`] message`), in the order of the error list.
+fn library_diagnostics(text: &str, path: &str) -> Option<Vec<String>> {
+    bind::with_front(text, &[], 3, |f| {
+        let errors = match f {
+            Front::TokenizeErr(e) => e,
+            Front::ParseErr { errors, .. } => errors,
+            Front::TypeErr { errors, .. } => errors,
+            _ => return None,
+        };
+        Some(
+            bind::messages(&errors)
+                .into_iter()
+                .map(|m| match m.strip_prefix("[Error] ") {
+                    Some(rest) => format!("[Error] [`{path}`] {rest}"),
+                    None => m,
+                })
+                .collect(),
+        )
+    })
 }
 
 fn cli_sweep(tier: Tier) -> Sweep {
@@ -543,10 +591,55 @@ fn cli_sweep(tier: Tier) -> Sweep {
             } else {
                 count!("cli_rejected");
             }
+            // The two other spellings of the command: `gram run FILE` and `gram FILE` go through the same
+            // front end, so a rejected file is rejected with the same diagnostics, and the two agree with
+            // each other byte for byte.
+            let diverges = name.contains("girard") || name.contains("infinite");
+            let run = if diverges { None } else { Some(launch(&["run", &path], Duration::from_secs(20))) };
+            if let Some(r) = &run {
+                count!("launches", 2);
+                let b = launch(&[&path], Duration::from_secs(20));
+                if !r.timed_out && !b.timed_out && (r.code != b.code || r.stdout != b.stdout || r.stderr != b.stderr) {
+                    violation(
+                        "cli-forms-disagree",
+                        &shown(),
+                        &format!("gram FILE behaves as gram run FILE: exit {:?}, stdout {:?}, stderr {:?}", r.code, String::from_utf8_lossy(&r.stdout), crate::infra::clip(&String::from_utf8_lossy(&r.stderr), 300)),
+                        &format!("exit {:?}, stdout {:?}, stderr {:?}", b.code, String::from_utf8_lossy(&b.stdout), crate::infra::clip(&String::from_utf8_lossy(&b.stderr), 300)),
+                    );
+                    return;
+                }
+                if l.code == Some(1) {
+                    if r.timed_out || r.code != Some(1) || !r.stdout.is_empty() || r.stderr != l.stderr {
+                        violation(
+                            "cli-forms-disagree",
+                            &shown(),
+                            &format!("gram run rejects the file as gram check does: exit 1, nothing on stdout, stderr {:?}", crate::infra::clip(&err_text, 300)),
+                            &format!("exit {:?}, stdout {} bytes, stderr {:?}", r.code, r.stdout.len(), crate::infra::clip(&String::from_utf8_lossy(&r.stderr), 300)),
+                        );
+                        return;
+                    }
+                    count!("cli_run_rejects_alike");
+                } else if !r.timed_out {
+                    let ok = match r.code {
+                        Some(0) => !r.stdout.is_empty() && r.stderr.is_empty(),
+                        Some(1) => r.stdout.is_empty() && !r.stderr.is_empty(),
+                        _ => false,
+                    };
+                    if !ok {
+                        violation(
+                            "cli-contract",
+                            &shown(),
+                            "gram run: exit 0 with stdout and empty stderr, or exit 1 with empty stdout and a message on stderr",
+                            &format!("exit {:?}, stdout {} bytes, stderr {:?}", r.code, r.stdout.len(), crate::infra::clip(&String::from_utf8_lossy(&r.stderr), 400)),
+                        );
+                        return;
+                    }
+                }
+            }
             // Agreement with the in-process pipeline (binds the engine's copy of the pipeline to main.rs).
             if let Some(b) = bytes
                 && let Ok(text) = std::str::from_utf8(b)
-                && !(name.contains("girard") || name.contains("infinite"))
+                && !diverges
             {
                 match library_verdict(text, 3) {
                     Ok(v) => {
@@ -557,7 +650,27 @@ fn cli_sweep(tier: Tier) -> Sweep {
                             if v {
                                 // "exits 0 with the result on standard output": what is printed is the
                                 // elaborated term and type (check) and the value (run) of the pipeline
-                                printed_result(text, &path, &l.stdout, &shown());
+                                printed_result(text, &l.stdout, run.as_ref(), &shown());
+                            } else if let Some(diags) = library_diagnostics(text, &path) {
+                                // "reports failure faithfully": every diagnostic of the pipeline is on
+                                // standard error, whole and in order
+                                let mut from = 0;
+                                for d in &diags {
+                                    // main.rs trims the joined text, so white space at the end of a
+                                    // diagnostic (an overline of width zero) is not demanded
+                                    let d = d.trim();
+                                    match err_text[from..].find(d) {
+                                        Some(at) => from += at + d.len(),
+                                        None => {
+                                            violation("cli-omits-diagnostic", &shown(), &format!("stderr contains, in order, the {} diagnostics of the pipeline; missing: {:?}", diags.len(), crate::infra::clip(d, 300)), &crate::infra::clip(&err_text, 600));
+                                            return;
+                                        }
+                                    }
+                                }
+                                count!("cli_diagnostics_as_computed");
+                                if diags.len() > 1 {
+                                    count!("cli_several_diagnostics_as_computed");
+                                }
                             }
                         }
                     }
